@@ -816,3 +816,11 @@ mod tests {
         )
     }
 }
+
+// Read-only accessors for the verification harness in /verif; compiled only
+// with `--cfg coap_lite_verif`.
+#[cfg(coap_lite_verif)]
+#[path = "verif_hooks.rs"]
+mod verif_hooks;
+#[cfg(coap_lite_verif)]
+pub use verif_hooks::VerifBlockStateSnapshot;
